@@ -105,7 +105,7 @@ static Verdict c10_cross(const Case& c) {
   Verdict V; V.cls = std::string(ntinfo(nt).name) + (n == 3 ? ";3d" : ";2d");
   if (cl < ldexpq(1, -ntinfo(nt).mant / 2)) { V.cls += ";nearly-parallel-not-checked"; return V; }   // cancellation: the cross product of nearly parallel directions is ill-conditioned
   const Q rl = qnorm(r, 3);
-  if ((double)(fabsq(rl - 1) / (Q)eps_of(nt)) > 4.0) return Verdict::fail(fmt("%s.Cross [%s] of %s and %s has length 1 %+.3g ulp", n == 3 ? "Direction" : "PlanarDirection", ntinfo(nt).name, cs(sa, 3).c_str(), cs(sb, 3).c_str(), (double)((rl - 1) / (Q)eps_of(nt))));
+  if (!((double)(fabsq(rl - 1) / (Q)eps_of(nt)) <= 4.0)) return Verdict::fail(fmt("%s.Cross [%s] of %s and %s has length 1 %+.3g ulp", n == 3 ? "Direction" : "PlanarDirection", ntinfo(nt).name, cs(sa, 3).c_str(), cs(sb, 3).c_str(), (double)((rl - 1) / (Q)eps_of(nt))));
   for (int i = 0; i < 3; i++) {
     const Q want = cx[i] / cl;
     const double e = (double)(fabsq((Q)r[i] - want) / ((Q)eps_of(nt) / cl));   // conditioning 1/|a x b|
@@ -155,7 +155,7 @@ static Verdict c11_kernel(const Case& c) {
   if (std::isnan(th)) return Verdict::fail(fmt("%s [%s] is NaN for %s", nm.c_str(), ntinfo(nt).name, args.c_str()));
   if (th < 0 || (Q)th > pi + (Q)ulp_at(nt, 3)) return Verdict::fail(fmt("%s [%s] = %s is outside [0, pi] for %s", nm.c_str(), ntinfo(nt).name, decld(th).c_str(), args.c_str()));
   const Q ref = angle_ref(sa, sb), tol = 6 * sqrtq((Q)eps_of(nt));
-  if (fabsq((Q)th - ref) > tol) return Verdict::fail(fmt("%s [%s] = %s but atan2(|a x b|, a.b) = %s (allowed 6 sqrt(eps) = %s) for %s", nm.c_str(), ntinfo(nt).name, decld(th).c_str(), qstr(ref).c_str(), qstr(tol).c_str(), args.c_str()));
+  if (!(fabsq((Q)th - ref) <= tol)) return Verdict::fail(fmt("%s [%s] = %s but atan2(|a x b|, a.b) = %s (allowed 6 sqrt(eps) = %s) for %s", nm.c_str(), ntinfo(nt).name, decld(th).c_str(), qstr(ref).c_str(), qstr(tol).c_str(), args.c_str()));
   // symmetry: same-kind kernels bit for bit; mixed kernels against their mirror kernel within 4 ulp(pi)
   {
     static const int mirror[8] = {0, 2, 1, 3, 4, 6, 5, 7};
